@@ -70,7 +70,8 @@ LEVEL_NOTE = ('three groups of theorems: (A) rest state on the model with abstra
               'the barotropic-instability jet are not band-limited and are explored with loose, labelled tolerances; '
               'isothermal_rest_atmosphere over non-flat orography uses a standard-atmosphere formula for the surface pressure '
               'and is only approximately balanced; shallow_water_states.one_layer/multi_layer hard-code radius 1 and 2*Omega = 1')
-TECHNIQUE = 'Coq proof (spec refinement + balance identities) + exact-polynomial pointwise oracle + balanced-family search'
+TECHNIQUE = ('Coq proof (spec refinement + balance identities; nodal column algebra proved equal to its transcription regenerated from '
+             'primitive_equations.py on every run, C05_model_is_source) + exact-polynomial pointwise oracle + balanced-family search')
 
 QN, QC, QI = 'specific_humidity', 'specific_cloud_liquid_water_content', 'specific_cloud_ice_water_content'
 
